@@ -7,6 +7,7 @@ from ..facts import AnchorMissing
 from ..guards import analysis, accessor_field, field_index
 from ..sym import Sym
 from ..terms import strip, short, cname, same, walk, unmut
+from .common import commut_sort
 
 LEVEL = "other"
 R = "alpha_g_physics::reconstruction::"
@@ -237,6 +238,16 @@ def run(prog, tier, res):
             inner = strip(t[2][0])
             ok = inner[0] == "call" and inner[1] == ABV
             why = "is .get() of `%s`" % (short(inner[1]) if inner[0] == "call" else inner[0])
+            if ok:
+                # the circle case: t is the signed angle, seen from the circle's centre (x0, y0), from the helix point at
+                # t = 0 to the query point -- that is the minimiser of the distance to a circle
+                sy_ = Sym(prog, an, slice_param=99)
+                from .. import accept as _accept0
+                opn = commut_sort(sy_.name(inner))
+                want = _accept0.load_spec("c16.json")["circle_operand"]
+                if opn != want:
+                    ok = False
+                    why = "circle-operand: the zero-pitch branch returns `%s`, not the angle at the centre between the t = 0 point and the query point `%s`" % (opn[:300], want[:160])
         if ok:
             # which return is taken: the circle fallback exactly when |h| is below machine epsilon (a pitch of either sign
             # with |h| >= eps must take the stationary-point branch, where t depends on z)
@@ -256,7 +267,7 @@ def run(prog, tier, res):
         if ok:
             res.hit(R1)
         else:
-            res.violate(R1, CLOSEST, "return:%s" % (why.split(":")[0] if why.startswith(("clamp-operand", "guard")) else why[:80]), "a value returned by the closest-point routine %s — it is not confined to [-pi, pi]" % why, b.where(bb))
+            res.violate(R1, CLOSEST, "return:%s" % (why.split(":")[0] if why.startswith(("clamp-operand", "circle-operand", "guard")) else why[:80]), "a value returned by the closest-point routine %s — it is not confined to [-pi, pi]" % why, b.where(bb))
     ab = prog.body(ABV)
     aan = analysis(prog, ab)
     res.functions.add(ABV)
@@ -267,6 +278,15 @@ def run(prog, tier, res):
         res.hit(R1)
     else:
         res.violate(R1, ABV, "return", "angle_between_vectors does not return an atan2 result", ab.where())
+    if ok:
+        # ... and that result is the signed angle from v1 to v2: atan2(v1 x v2, v1 . v2)
+        from .. import accept as _accept3
+        got_abv = commut_sort(Sym(prog, aan, slice_param=99).name(arets[0]))
+        want_abv = _accept3.load_spec("c16.json")["angle_between_vectors"]
+        if got_abv == want_abv:
+            res.hit(R1)
+        else:
+            res.violate(R1, ABV, "return:signed-angle", "angle_between_vectors returns `%s`, not the signed angle atan2(cross, dot) `%s`" % (got_abv[:300], want_abv), ab.where())
 
     # ------------------------------------------------------------------ R2
     fi = {n: field_index(prog, TRACK, n) for n in ("helix", "t_inner", "t_outer")}
